@@ -251,6 +251,14 @@ func (a *Agent) hooks(proc *process.Process, sym *symbol.Symbol, in *port.InPort
 			}
 		}
 		if frame == nil {
+			// On an out-port the inbound packet is the answer to a request recorded by the outbound
+			// hook. An answer that finds no open frame belongs to a request this hook pair never saw
+			// (it passed before the hooks were attached): it is not recorded, an orphan would be
+			// taken for the open frame of the next request.
+			if out != nil {
+				a.mu.Unlock()
+				return
+			}
 			frame = &Frame{
 				Process: proc,
 				Symbol:  sym,
@@ -289,6 +297,11 @@ func (a *Agent) hooks(proc *process.Process, sym *symbol.Symbol, in *port.InPort
 			}
 		}
 		if frame == nil {
+			// On an in-port the outbound packet is the answer: see the inbound hook.
+			if in != nil {
+				a.mu.Unlock()
+				return
+			}
 			frame = &Frame{
 				Process: proc,
 				Symbol:  sym,
